@@ -10,8 +10,11 @@ open Grol.Wire (Bytes)
 
 def writeOut (b : Bytes) : M Unit :=
   modify fun st => match st.outs with
-    | [] => { st with outs := [b] }
-    | o :: rest => { st with outs := (o ++ b) :: rest }
+    | [] => { st with outs := [[b]] }
+    | o :: rest => { st with outs := (b :: o) :: rest }
+
+/-- the bytes written to a writer, in order -/
+def chunksBytes (chunks : List Bytes) : Bytes := chunks.reverse.flatten
 
 def curEnv : M Nat := do pure (← get).cur
 
@@ -541,7 +544,7 @@ def applyFunction : Nat → Obj → List Obj → M Obj
         let cantCache := fr.cantCache
         let st ← get
         let (output, outs) := match st.outs with
-          | o :: rest => (o, rest)
+          | o :: rest => (chunksBytes o, rest)
           | [] => ([], [])
         set { st with cur := curState, outs := outs }
         if !output.isEmpty then writeOut output
